@@ -31,17 +31,28 @@ var classByRoot = []struct{ pkg, typ, name, anon, class string }{
 // callbacks handed to time.AfterFunc, and main.main.
 func (p *Program) GoroutineClasses() map[string]*GClass {
 	roots := map[*ssa.Function]bool{}
+	spawner := map[*ssa.Function]*ssa.Function{} // root -> the declared function that starts it
+	timerRoot := map[*ssa.Function]bool{}        // started by time.AfterFunc
+	outer := func(fn *ssa.Function) *ssa.Function {
+		for fn.Parent() != nil {
+			fn = fn.Parent()
+		}
+		return fn
+	}
 	for _, fn := range p.OwnFuncs() {
 		Instrs(fn, func(in ssa.Instruction) {
 			switch x := in.(type) {
 			case *ssa.Go:
 				if f := goTarget(x.Call.Value, x.Common()); f != nil {
 					roots[f] = true
+					spawner[f] = outer(fn)
 				}
 			case *ssa.Call:
 				if f := Callee(x); f != nil && IsPkgFunc(f, "time", "AfterFunc") && len(x.Call.Args) == 2 {
 					if t := funcValue(x.Call.Args[1]); t != nil {
 						roots[t] = true
+						spawner[t] = outer(fn)
+						timerRoot[t] = true
 					}
 				}
 			}
@@ -75,9 +86,16 @@ func (p *Program) GoroutineClasses() map[string]*GClass {
 			if k.anon == "" && r == decl {
 				name = k.class
 			}
-			if k.anon != "" && r.Parent() == decl && strings.HasSuffix(r.Name(), k.anon) {
+			// a goroutine / timer callback started inside decl: the closure of the pinned tree, or - after a
+			// refactoring - a named function or method value started from the same place
+			if k.anon != "" && (r.Parent() == decl && strings.HasSuffix(r.Name(), k.anon) || (spawner[r] == decl && r != decl)) {
 				name = k.class
 			}
+		}
+		// transaction timer callbacks are a role, not a place: whatever time.AfterFunc is handed inside
+		// the pfcp package (the timer may be armed by the constructor instead of startTimer)
+		if name == "" && timerRoot[r] && spawner[r] != nil && FnPkg(spawner[r]) != nil && strings.HasSuffix(FnPkg(spawner[r]).Path(), "internal/pfcp") {
+			name = "TMR"
 		}
 		if name == "" {
 			if r.Name() == "main" && r.Pkg != nil && r.Pkg.Pkg.Name() == "main" {
